@@ -5,7 +5,7 @@
    (they come from allocSceneId).  [removed_exactly s s' gone] (Spec.v) says: exactly the scenes
    selected by [gone] left, exactly their lines were freed, all other scenes and lines - and
    the clock and id allocator - are untouched. *)
-From Cell2V Require Import Common.Tac Common.ListX Common.AList C19.Model C19.Spec C19.Proofs.
+From Cell2V Require Import Common.Tac Common.ListX Common.AList C19.Model C19.Spec C19.Proofs C19.Corr.
 
 (* after any history: every live scene is under a line of its configuration and vice versa,
    line numbers unique, >= 0 and sorted, all three tables canonical *)
@@ -112,6 +112,25 @@ Print Assumptions C19_monitor_idlest.
 Theorem C19_monitor_least_free : forall l n, least_free l n -> least_free_b l n = true.
 Proof. exact least_free_b_complete. Qed.
 Print Assumptions C19_monitor_least_free.
+
+(* END TO END: every implementation trace that the model accepts ([agree]: same dump after every
+   operation, result among the model's admissible results) passes the monitor - for ALL
+   histories; the guard is the one the monitor itself evaluates (a step is checked iff the
+   history up to and including it is [wf], exactly as in Spec.monitor_from / Corr.monitor).
+   Hence a monitor failure on an implementation trace is a behaviour the model excludes. *)
+Theorem C19_monitor_accepts_model : forall h bs, agree (h, bs) = true -> monitor (h, bs) = true.
+Proof. exact monitor_accepts_model. Qed.
+Print Assumptions C19_monitor_accepts_model.
+
+(* in particular the model's own trace [run h] (first admissible result wherever the code's
+   answer depends on map order or math/rand) passes, with or without the guard *)
+Theorem C19_monitor_accepts_run : forall h, monitor (h, run h) = true.
+Proof. exact monitor_accepts_run. Qed.
+Print Assumptions C19_monitor_accepts_run.
+
+Theorem C19_run_is_accepted : forall h, agree (h, run h) = true.
+Proof. exact (fun h => run_obs_agrees h init). Qed.
+Print Assumptions C19_run_is_accepted.
 
 (* non-vacuity.  Two services; five scenes over two configurations; line 1 of cfg 100 freed and
    re-used; service 1 driven to its 4th strike while service 2 keeps refreshing: its scenes
